@@ -219,7 +219,12 @@ fn body(depth: usize) -> impl Fn(&Ch) -> Run + Sync + Send {
       let Some(with_cache) = fast_check_roots(&pkgs, &roots, Some(&cache), ch) else { break };
       let Some(without) = fast_check_roots(&pkgs, &roots, None, ch) else { break };
       let Some(without2) = fast_check_roots(&pkgs, &roots, None, ch) else { break };
-      run.evals += 3;
+      // the same pass run twice on one graph object
+      REPEAT_FINAL_PASS.with(|r| r.set(true));
+      let twice = fast_check_roots(&pkgs, &roots, None, ch);
+      REPEAT_FINAL_PASS.with(|r| r.set(false));
+      let Some(twice) = twice else { break };
+      run.evals += 4;
       let case = |extra: Value| {
         json!({"two_entrypoints": two_entrypoints, "package_a_is_a_workspace_member": workspace, "history": history,
           "root_imports": MODS[ROOT_MOD].variants[variants[ROOT_MOD]],
@@ -266,6 +271,9 @@ fn body(depth: usize) -> impl Fn(&Ch) -> Run + Sync + Send {
         );
       }
       // (4) determinism
+      if canon(&twice) != b {
+        run.violate("second-pass-on-the-same-graph-differs", format!("after {history:?}: running fast check twice on one graph gives a different result than running it once"), case(json!({})));
+      }
       if canon(&without2) != b {
         run.violate("repeated-run-differs", format!("after {history:?}: two cache-less runs on the same sources differ"), case(json!({})));
       }
@@ -300,7 +308,7 @@ pub fn prop(tier: Tier) -> Prop {
   };
   Prop {
     id: "C12",
-    rule: format!("state = operation history of length <= {depth} over a three-package world (@s/a: mod.ts re-exporting a.ts, c.ts as optional second entrypoint, helper h.ts; @s/b imported by a.ts and by @s/d; the root program imports @s/a, @s/d or both in either order, and is editable too) with 2-3 source variants per module (clean / diagnostic-bearing / clean with different exports or imports); operations = run again, or edit one module to another variant and run; the fast-check cache is shared along the history (cold, warm, stale). After every operation: all-or-nothing per package (with and without cache), recorded dependencies of each emitted module = dependencies declared by its emitted text (re-analysed), with-cache result = cache-less result (set of modules with output / diagnostics, text, dependencies, source map), two cache-less runs identical. Histories are enumerated completely. Non-trivial = history of >= 2 operations."),
+    rule: format!("state = operation history of length <= {depth} over a three-package world (@s/a: mod.ts re-exporting a.ts, c.ts as optional second entrypoint, helper h.ts; @s/b imported by a.ts and by @s/d; the root program imports @s/a, @s/d or both in either order, and is editable too) with 2-3 source variants per module (clean / diagnostic-bearing / clean with different exports or imports); operations = run again, or edit one module to another variant and run; the fast-check cache is shared along the history (cold, warm, stale). After every operation: all-or-nothing per package (with and without cache), recorded dependencies of each emitted module = dependencies declared by its emitted text (re-analysed), with-cache result = cache-less result (set of modules with output / diagnostics, text, dependencies, source map), two cache-less runs identical, and a second pass over the same graph object changes nothing. Histories are enumerated completely. Non-trivial = history of >= 2 operations."),
     assumptions: vec![
       "each operation rebuilds the graph from the current sources (an edit changes what the registry serves) and runs fast check against the shared cache".into(),
       "@s/a is either published to the registry or a local workspace member (file: URLs, WorkspaceFastCheckOption::Enabled); fast_check_dts is not part of the world".into(),
